@@ -297,11 +297,19 @@ def run(prop, tier, seed, argv_opts=None):
             return 10
         return 250
 
+    per_h = {}
+    for c in cases:
+        per_h[c["h"]] = per_h.get(c["h"], 0) + 1
+    idx_h = {}
     for i, c in enumerate(cases):
         o = dict(base)
+        k = idx_h.get(c["h"], 0)
+        idx_h[c["h"]] = k + 1
+        # functions entered are recorded on one path of ~24 cases spread over each scenario
+        if k % max(1, per_h[c["h"]] // 24) == 0:
+            o["profile"] = True
         if c["h"] not in seen_h:
             seen_h.add(c["h"])
-            o["profile"] = True
             o["twin"] = True
         o["max_paths"] = path_budget(len(cases))
         jobs.append((prop, i, c, seed, o))
